@@ -9,7 +9,7 @@ def run(ctx):
         "rune widths for the terminal come from the harness's Unicode tables; East-Asian-ambiguous runes count as narrow",
         "nearest-palette sets come from the harness's own CIE76 code (ties accepted)",
     ]
-    ctx.finish("model_checking" if "states" in ctx.cov else "exploration",
+    ctx.finish("exploration",
                rule="seeded random histories (SetContent/Fill/Clear/SetStyle/ShowCursor/SetCursorStyle/LockRegion/Show/Sync/"
                     "window resize/corruption) on every ECMA-48-family entry, with and without direct colour; distinct = "
                     "distinct (terminal, operation sequence); non-trivial = contains a draw that is checked")
